@@ -562,9 +562,12 @@ def match(got, want):
     return None
 
 
-def check_paths(ctx, rule, qual, paths, ret=None, skip_kinds=(), only_kinds=None):
-    """run the checker over every path of `qual`, recording one obligation per distinct sink"""
+def check_paths(ctx, rule, qual, paths, ret=None, skip_kinds=(), only_kinds=None, require=()):
+    """run the checker over every path of `qual`, recording one (soft) obligation per distinct typed sink found.
+    `require`: iterable of sets of sink kinds; for each set at least one sink of one of its kinds must exist in the function,
+    else an UNDECIDED obligation is recorded (a role rule that silently finds no sink would pass vacuously)."""
     n = 0
+    kinds_seen = set()
     for p in paths:
         ck = Checker(ctx.pkg, p, qual)
         for ev in p.events:
@@ -589,10 +592,16 @@ def check_paths(ctx, rule, qual, paths, ret=None, skip_kinds=(), only_kinds=None
             if kind in skip_kinds or (only_kinds is not None and kind not in only_kinds):
                 continue
             key = "%s|%s|%s" % (qual, kind, desc)
+            kinds_seen.add(kind)
             if (key, ok, detail) in seen:
                 continue
             seen.add((key, ok, detail))
             n += 1
             ctx.check(rule, key, ok, "axis roles agree: " + detail, bad="axis/role clash: " + detail, fn=qual, line=None,
-                      undecided="role unknown at a typed sink: " + detail)
+                      undecided="role unknown at a typed sink: " + detail, soft=True)
+    for alt in require:
+        alt = set(alt)
+        ctx.check(rule, "%s|typed-sink-present|%s" % (qual, "/".join(sorted(alt))), True if kinds_seen & alt else None,
+                  "the role checker found a typed sink of kind %s in this function (%d sinks in total)" % ("/".join(sorted(alt)), n), fn=qual,
+                  undecided="no typed sink of kind %s was found in %s: the axis-role rule would pass vacuously" % ("/".join(sorted(alt)), qual.rsplit(".", 1)[-1]))
     return n
